@@ -78,7 +78,10 @@ theorem validFor_eq (b : Batch) (r : ProdRes) (hn : (b.groups.map (·.tp)).Nodup
 structure BRel (b : Batch) (t : Track) : Prop where
   tps : t.batchTps = b.groups.map (·.tp)
   nodup : (b.groups.map (·.tp)).Nodup
-  live : b.live = t.batchTps.filter (· ∉ t.acked)
+  /-- what stays listed for a retry: payloads of the batch, each once, none acknowledged so far -/
+  live_sub : ∀ tp ∈ b.live, tp ∈ b.groups.map (·.tp)
+  live_nodup : b.live.Nodup
+  live_unacked : ∀ tp ∈ b.live, tp ∉ t.acked
   lastP : ∀ g ∈ b.groups, (g.tp, g.sids) ∈ t.lastP
   prod : ∀ s ∈ b.allSids, s ∈ t.produced
   chain1 : 1 ≤ t.chain
@@ -92,13 +95,13 @@ structure SendRel (st : St) (t : Track) (rid : Rid) (b : Batch) : Prop where
   sub : ∀ tp ∈ b.current, tp ∈ b.live
   nodup : b.current.Nodup
   ne : b.current ≠ []
-  /-- if every result so far accounted for its request, nothing unacknowledged is left out of the attempt -/
-  al : t.acct = true → ∀ tp ∈ b.live, tp ∈ b.current
+  /-- nothing but the payloads of the attempt is listed for a retry (F17, F30) -/
+  al : ∀ tp ∈ b.live, tp ∈ b.current
 
 /-- while the retry timer is pending -/
 structure RetryRel (cfg : Cfg) (st : St) (t : Track) (tid : Tid) (b : Batch) (tps : List TP) : Prop where
   tid : tid ∈ t.retryTids
-  res : ∃ res, t.curRes = some res ∧ tps = failedTps (t.batchTps.filter (· ∉ t.acked)) res
+  res : ∃ res, t.curRes = some res ∧ tps = failedTps tps res
   br : BRel b t
   chain : (t.chain : Int) ≤ st.attempts
   att : st.attempts < cfg.maxAttempts
@@ -106,9 +109,10 @@ structure RetryRel (cfg : Cfg) (st : St) (t : Track) (tid : Tid) (b : Batch) (tp
   nodup : tps.Nodup
   nostop : st.stopping = false
   ne : tps ≠ []
-  al : t.acct = true → ∀ tp ∈ b.live, tp ∈ tps
-  /-- the request being retried: the retry is part of it -/
-  prev : ∃ rid cur0, t.cur = some (rid, b.payloadsFor cur0) ∧ (t.acct = true → ∀ tp ∈ tps, tp ∈ cur0)
+  al : ∀ tp ∈ b.live, tp ∈ tps
+  /-- the request being retried: the retry is part of it - and all of it after a total failure -/
+  prev : ∃ rid cur0, t.cur = some (rid, b.payloadsFor cur0) ∧ (∀ tp ∈ cur0, tp ∈ b.groups.map (·.tp)) ∧
+    (∀ tp ∈ tps, tp ∈ cur0) ∧ (∀ k, t.curRes = some (.err k) → ∀ tp ∈ cur0, tp ∈ tps)
 
 structure Rel (cfg : Cfg) (st : St) (t : Track) : Prop where
   stopped : t.stopped = st.stopping
@@ -123,11 +127,6 @@ structure Rel (cfg : Cfg) (st : St) (t : Track) : Prop where
   att : 0 ≤ st.attempts
   idle0 : st.phase = .idle → st.attempts = 0 ∧ st.interval = cfg.initInterval
 
-theorem BRel.live_sub {b : Batch} {t : Track} (h : BRel b t) : ∀ tp ∈ b.live, tp ∈ b.groups.map (·.tp) := by
-  intro tp htp
-  rw [h.live, h.tps] at htp
-  exact (List.mem_filter.mp htp).1
-
 theorem norm_field {α : Type} {t t' : Track} (f : Track → α) (hf : ∀ x, f x = f (norm x)) (hn : norm t = norm t') :
     f t = f t' := by rw [hf t, hf t', hn]
 
@@ -137,7 +136,7 @@ theorem BRel.congr {b : Batch} {t t' : Track} (h : BRel b t) (hn : norm t = norm
   have e7 : t.lastP = t'.lastP := norm_field (·.lastP) (fun _ => rfl) hn
   have e8 : t.produced = t'.produced := norm_field (·.produced) (fun _ => rfl) hn
   have e9 : t.chain = t'.chain := norm_field (·.chain) (fun _ => rfl) hn
-  exact ⟨by rw [← e5]; exact h.tps, h.nodup, by rw [← e5, ← e6]; exact h.live, by rw [← e7]; exact h.lastP,
+  exact ⟨by rw [← e5]; exact h.tps, h.nodup, h.live_sub, h.live_nodup, by rw [← e6]; exact h.live_unacked, by rw [← e7]; exact h.lastP,
     by rw [← e8]; exact h.prod, by rw [← e9]; exact h.chain1⟩
 
 theorem SendRel.congr {st : St} {t t' : Track} {rid : Rid} {b : Batch} (h : SendRel st t rid b) (hn : norm t = norm t') :
@@ -145,8 +144,7 @@ theorem SendRel.congr {st : St} {t t' : Track} {rid : Rid} {b : Batch} (h : Send
   have e1 : t.cur = t'.cur := norm_field (·.cur) (fun _ => rfl) hn
   have e2 : t.curRes = t'.curRes := norm_field (·.curRes) (fun _ => rfl) hn
   have e3 : t.chain = t'.chain := norm_field (·.chain) (fun _ => rfl) hn
-  exact ⟨by rw [← e1]; exact h.cur, by rw [← e2]; exact h.res, h.br.congr hn, by rw [← e3]; exact h.chain, h.sub, h.nodup, h.ne,
-    by rw [← (norm_field (·.acct) (fun _ => rfl) hn : t.acct = t'.acct)]; exact h.al⟩
+  exact ⟨by rw [← e1]; exact h.cur, by rw [← e2]; exact h.res, h.br.congr hn, by rw [← e3]; exact h.chain, h.sub, h.nodup, h.ne, h.al⟩
 
 theorem RetryRel.congr {cfg : Cfg} {st : St} {t t' : Track} {tid : Tid} {b : Batch} {tps : List TP}
     (h : RetryRel cfg st t tid b tps) (hn : norm t = norm t') : RetryRel cfg st t' tid b tps := by
@@ -155,10 +153,9 @@ theorem RetryRel.congr {cfg : Cfg} {st : St} {t t' : Track} {tid : Tid} {b : Bat
   have e4 : t.retryTids = t'.retryTids := norm_field (·.retryTids) (fun _ => rfl) hn
   have e5 : t.batchTps = t'.batchTps := norm_field (·.batchTps) (fun _ => rfl) hn
   have e6 : t.acked = t'.acked := norm_field (·.acked) (fun _ => rfl) hn
-  exact ⟨by rw [← e4]; exact h.tid, by rw [← e2, ← e5, ← e6]; exact h.res, h.br.congr hn, by rw [← e3]; exact h.chain,
-    h.att, h.sub, h.nodup, h.nostop, h.ne,
-    by rw [← (norm_field (·.acct) (fun _ => rfl) hn : t.acct = t'.acct)]; exact h.al,
-    by rw [← (norm_field (·.acct) (fun _ => rfl) hn : t.acct = t'.acct), ← (norm_field (·.cur) (fun _ => rfl) hn : t.cur = t'.cur)]; exact h.prev⟩
+  exact ⟨by rw [← e4]; exact h.tid, by rw [← e2]; exact h.res, h.br.congr hn, by rw [← e3]; exact h.chain,
+    h.att, h.sub, h.nodup, h.nostop, h.ne, h.al,
+    by rw [← e2, ← (norm_field (·.cur) (fun _ => rfl) hn : t.cur = t'.cur)]; exact h.prev⟩
 
 theorem Rel.congr {cfg : Cfg} {st : St} {t t' : Track} (h : Rel cfg st t) (hn : norm t = norm t') : Rel cfg st t' := by
   have e1 : t.cur = t'.cur := norm_field (·.cur) (fun _ => rfl) hn
